@@ -1,11 +1,19 @@
-"""C18: run ONE scenario against the real `MultiprocessSelfPlayEngine` and print what happened as JSON.
+"""C18: run ONE scenario against the real self-play worker pool and print what happened as JSON.
 
 Started by harness/props/c18.py as `python -m harness.lib.pool_scenario '<scenario json>'` (cwd = /verif,
 own session so that the caller can kill the whole process group).  Nothing here judges anything: the
 outcome is only observed and serialised; prediction and verdict come from the Lean driver.
 
-scenario = {"W": 2, "requests": [5, 2], "faults": ["game:0:2", "killwait:1:2", ...], "T": 10.0, "slow": 0.0}
+scenario = {"W": 2, "requests": [5, 2], "faults": ["game:0:2", ...], "T": 10.0, "slow": 0.0, "api": "play_many"}
 fault tokens are the driver's (TakVerif/Driver/Pool.lean): factory:j  game:j:k  killplay:j:k  killwait:j:r
+
+api = "play_many" (default): one `MultiprocessSelfPlayEngine`, consecutive `play_many(N)` calls; afterwards
+      `stop()` — ALSO after a request has raised (what `play_many_games` / the trainer do in `finally`); the
+      teardown must come back (return or raise) within the same bound T.
+api = "play_many_games": ONE call of the public entry point `play_many_games(config, N)` (engine creation,
+      play_many, `finally: stop()`); the WHOLE call must return or raise within T of the reference time.
+      (killwait faults are not available here: the engine is not reachable before the call.)
+Reference time of a request = max(call start, every worker ready/failed in its factory, last fault fired).
 """
 import json
 import os
@@ -46,176 +54,302 @@ def spec_of(scenario, nonce):
     return spec
 
 
-def run(scenario):
+def _pid_gone(pid):
+    try:
+        with open("/proc/%d/stat" % pid) as f:
+            st = f.read()
+        return st.rsplit(")", 1)[1].split()[0] in ("Z", "X")
+    except (OSError, IndexError):
+        return True
+
+
+def _worker_children():
+    import multiprocessing
+
+    return [p for p in multiprocessing.active_children() if p.name.startswith("selfplay-worker-")]
+
+
+class Monitor:
+    """watches the marker directory: fired faults, kill windows, the reference time"""
+
+    def __init__(self, d, W, t_engine, procs=None):
+        self.d, self.W, self.t_engine, self.procs = d, W, t_engine, procs
+        self.faults = []  # (time, kind) of every fault that has FIRED
+        self.killed = set()
+        self.seen = set()  # play_many_games mode: workers that have been seen alive
+
+    def kill(self, j, pid):
+        try:
+            os.kill(pid, signal.SIGKILL)
+        except ProcessLookupError:
+            pass
+        t0 = time.time()
+        if self.procs is not None:
+            self.procs[j].join(10)
+        else:
+            while not _pid_gone(pid) and time.time() - t0 < 10:
+                time.sleep(0.02)
+        self.faults.append((time.time(), "kill"))
+        self.killed.add(j)
+
+    def _silently_dead(self, j, alive):
+        """worker j ended before saying anything (e.g. killed by the parent while still importing)"""
+        if self.procs is not None:
+            return self.procs[j].exitcode is not None
+        return j in self.seen and j not in alive
+
+    def settled(self, markers):
+        ts = []
+        alive = set()
+        if self.procs is None:
+            for p in _worker_children():
+                try:
+                    alive.add(int(p.name.rsplit("-", 1)[1]))
+                except ValueError:
+                    pass
+            self.seen |= alive
+        for j in range(self.W):
+            m = markers.get("ready-%d" % j) or markers.get("fault-factory-%d" % j)
+            if m is None:
+                if self._silently_dead(j, alive):
+                    continue
+                return None
+            ts.append(m["t"])
+        return max(ts) if ts else self.t_engine
+
+    def scan(self):
+        markers = _read_markers(self.d)
+        for n, m in markers.items():
+            if n.startswith("fault-factory-") and (m["t"], "factory") not in self.faults:
+                self.faults.append((m["t"], "factory"))
+            if n.startswith("fault-game-") and (m["t"], "game") not in self.faults:
+                self.faults.append((m["t"], "game"))
+        for j in range(self.W):  # a worker announced its kill window
+            m = markers.get("window-%d" % j)
+            if m is not None and j not in self.killed:
+                time.sleep(0.2)
+                self.kill(j, m["pid"])
+        return markers
+
+    def t_ref(self, t_call, ts):
+        return max([t_call, ts] + [t for t, _ in self.faults])
+
+    def last_fault(self):
+        return max(self.faults)[1] if self.faults else "none"
+
+    def watch(self, th, t_call, T):
+        """wait for thread `th`; returns None when it ended, else seconds blocked past the reference time"""
+        while True:
+            th.join(0.05)
+            markers = self.scan()
+            if not th.is_alive():
+                return None
+            ts = self.settled(markers)
+            now = time.time()
+            if ts is None:
+                if now - t_call > 180:
+                    raise RuntimeError("workers did not start within 180 s")
+                continue
+            ref = self.t_ref(t_call, ts)
+            if now > ref + T:
+                return round(now - ref, 2)
+
+
+def _tags(logs, tf, seen_tags, prev_return, obs):
+    dups = carried = 0
+    tags = []
+    for lg in logs:
+        tag = getattr(lg, "stats", None)
+        if not isinstance(tag, tf.Tag):
+            tags.append("untagged")
+            continue
+        k = tag.key()
+        tags.append(k)
+        if k in seen_tags:
+            dups += 1
+        seen_tags.add(k)
+        if prev_return is not None and tag.t_start < prev_return:
+            carried += 1
+    obs["dups"] = dups
+    obs["carried"] = carried
+    obs["by_worker"] = sorted(set(t.split("/")[0] for t in tags))
+    obs["plies"] = sorted(len(lg.positions) for lg in logs)
+
+
+def run_play_many(scenario, d, factory, res):
     from tak import self_play
     import takverif_factories as tf
 
     W = scenario["W"]
     T = float(scenario.get("T", 10.0))
-    d = tempfile.mkdtemp(prefix="c18-")
-    nonce = "%x" % (int(time.time() * 1e6) & 0xFFFFFFFF)
-    factory = tf.ScriptedFactory(spec_of(scenario, nonce), d)
     cfg = self_play.SelfPlayConfig(engine_factory=factory, size=3, workers=W)
-    res = {"requests": [], "W": W, "stop": None, "error": None}
     t_engine = time.time()
     engine = self_play.MultiprocessSelfPlayEngine(config=cfg)
     procs = engine.processes
-    faults = []  # (time, kind) of every fault that has FIRED
-    killed = set()
-
-    def settled_time(markers):
-        ts = []
-        for j in range(W):
-            m = markers.get("ready-%d" % j) or markers.get("fault-factory-%d" % j)
-            if m is None:
-                if procs[j].exitcode is not None:  # died before saying anything (e.g. killed)
-                    continue
-                return None
-            ts.append(m["t"])
-        return max(ts) if ts else t_engine
-
-    def note_marker_faults(markers):
-        for n, m in markers.items():
-            if n.startswith("fault-factory-") and (m["t"], "factory") not in faults:
-                faults.append((m["t"], "factory"))
-            if n.startswith("fault-game-") and (m["t"], "game") not in faults:
-                faults.append((m["t"], "game"))
-
-    def kill_worker(j):
-        os.kill(procs[j].pid, signal.SIGKILL)
-        procs[j].join(10)
-        faults.append((time.time(), "kill"))
-        killed.add(j)
-
+    res["_procs"] = procs
+    mon = Monitor(d, W, t_engine, procs)
     seen_tags = set()
     prev_return = None
-    try:
-        for r, n in enumerate(scenario["requests"], start=1):
-            # worker j SIGKILLed while idle, before this request starts
-            for f in scenario["faults"]:
-                t = f.split(":")
-                if t[0] == "killwait" and int(t[2]) == r:
-                    j = int(t[1])
-                    t0 = time.time()
-                    while "ready-%d" % j not in _read_markers(d):
-                        if time.time() - t0 > 120 or procs[j].exitcode is not None:
-                            break
-                        time.sleep(0.05)
-                    if procs[j].exitcode is None:
-                        time.sleep(0.3)  # let it reach cmd.get()
-                        kill_worker(j)
-            box = {}
+    t_call = t_engine
+    for r, n in enumerate(scenario["requests"], start=1):
+        # worker j SIGKILLed while idle, before this request starts
+        for f in scenario["faults"]:
+            t = f.split(":")
+            if t[0] == "killwait" and int(t[2]) == r:
+                j = int(t[1])
+                t0 = time.time()
+                while "ready-%d" % j not in _read_markers(d):
+                    if time.time() - t0 > 120 or procs[j].exitcode is not None:
+                        break
+                    time.sleep(0.05)
+                if procs[j].exitcode is None:
+                    time.sleep(0.3)  # let it reach cmd.get()
+                    mon.kill(j, procs[j].pid)
+        box = {}
 
-            def call(n=n, box=box):
-                try:
-                    box["logs"] = engine.play_many(n)
-                except BaseException as ex:  # noqa
-                    box["exc"] = type(ex).__name__
-                box["t_end"] = time.time()
+        def call(n=n, box=box):
+            try:
+                box["logs"] = engine.play_many(n)
+            except BaseException as ex:  # noqa
+                box["exc"] = type(ex).__name__
+            box["t_end"] = time.time()
 
-            t_call = time.time()
-            th = threading.Thread(target=call, daemon=True)
-            th.start()
-            obs = {"N": n, "request": r}
-            while True:
-                th.join(0.05)
-                markers = _read_markers(d)
-                note_marker_faults(markers)
-                for j in range(W):  # a worker announced its kill window
-                    if "window-%d" % j in markers and j not in killed:
-                        time.sleep(0.2)
-                        kill_worker(j)
-                if not th.is_alive():
-                    break
-                ts = settled_time(markers)
-                now = time.time()
-                if ts is None:
-                    if now - t_call > 180:
-                        raise RuntimeError("workers did not start within 180 s")
-                    continue
-                t_ref = max([t_call, ts] + [t for t, _ in faults])
-                if now > t_ref + T:
-                    obs["outcome"] = "blocked"
-                    obs["blocked_s"] = round(now - t_ref, 2)
-                    break
-            markers = _read_markers(d)
-            note_marker_faults(markers)
-            ts = settled_time(markers) or t_call
-            obs["fault"] = max(faults)[1] if faults else "none"
-            obs["faults_fired"] = sorted(k for _, k in faults)
-            obs["exitcodes"] = [p.exitcode for p in procs]
-            if "outcome" not in obs:
-                if "logs" in box:
-                    logs = box["logs"]
-                    obs["outcome"] = "returned"
-                    obs["n"] = len(logs)
-                    dups = carried = 0
-                    tags = []
-                    for lg in logs:
-                        tag = getattr(lg, "stats", None)
-                        if not isinstance(tag, tf.Tag):
-                            tags.append("untagged")
-                            continue
-                        k = tag.key()
-                        tags.append(k)
-                        if k in seen_tags:
-                            dups += 1
-                        seen_tags.add(k)
-                        if prev_return is not None and tag.t_start < prev_return:
-                            carried += 1
-                    obs["dups"] = dups
-                    obs["carried"] = carried
-                    obs["by_worker"] = sorted(set(t.split("/")[0] for t in tags))
-                    obs["plies"] = sorted(len(lg.positions) for lg in logs)
-                    prev_return = box["t_end"]
-                else:
-                    obs["outcome"] = "raised"
-                    obs["exc"] = box["exc"]
-                    t_ref = max([t_call, ts] + [t for t, _ in faults])
-                    obs["ms"] = max(0, int((box["t_end"] - t_ref) * 1000))
-            obs["seconds"] = round(time.time() - t_call, 2)
-            res["requests"].append(obs)
-            if obs["outcome"] != "returned":
-                break
+        t_call = time.time()
+        th = threading.Thread(target=call, daemon=True)
+        th.start()
+        obs = {"N": n, "request": r}
+        blocked = mon.watch(th, t_call, T)
+        markers = mon.scan()
+        ts = mon.settled(markers) or t_call
+        obs["fault"] = mon.last_fault()
+        obs["faults_fired"] = sorted(k for _, k in mon.faults)
+        obs["exitcodes"] = [p.exitcode for p in procs]
+        if blocked is not None:
+            obs["outcome"] = "blocked"
+            obs["blocked_s"] = blocked
+        elif "logs" in box:
+            obs["outcome"] = "returned"
+            obs["n"] = len(box["logs"])
+            _tags(box["logs"], tf, seen_tags, prev_return, obs)
+            prev_return = box["t_end"]
+        else:
+            obs["outcome"] = "raised"
+            obs["exc"] = box["exc"]
+            obs["ms"] = max(0, int((box["t_end"] - mon.t_ref(t_call, ts)) * 1000))
+        obs["seconds"] = round(time.time() - t_call, 2)
+        res["requests"].append(obs)
+        if obs["outcome"] != "returned":
+            break
 
-        last = res["requests"][-1]["outcome"] if res["requests"] else None
+    last = res["requests"][-1]["outcome"] if res["requests"] else None
+    if last in ("returned", "raised"):
+        # what play_many_games / the trainer do next, also after a failure: engine.stop()
+        sbox = {}
+
+        def stop():
+            try:
+                engine.stop()
+            except BaseException as ex:  # noqa
+                sbox["exc"] = type(ex).__name__
+
+        t0 = time.time()
+        th = threading.Thread(target=stop, daemon=True)
+        th.start()
         if last == "returned":
-            sbox = {}
-
-            def stop():
-                try:
-                    engine.stop()
-                except BaseException as ex:  # noqa
-                    sbox["exc"] = type(ex).__name__
-
-            t0 = time.time()
-            th = threading.Thread(target=stop, daemon=True)
-            th.start()
             th.join(15)
-            res["stop"] = {
-                "after": "returned",
-                "returned": not th.is_alive(),
-                "exc": sbox.get("exc"),
-                "exited": sum(1 for p in procs if p.exitcode is not None),
-                "exitcodes": [p.exitcode for p in procs],
-                "seconds": round(time.time() - t0, 2),
-            }
-        elif last == "raised":
-            # play_many killed every worker before re-raising: they must all be gone shortly
-            t0 = time.time()
-            while time.time() - t0 < 5 and any(p.exitcode is None for p in procs):
-                time.sleep(0.05)
-            res["stop"] = {
-                "after": "raised",
-                "exited": sum(1 for p in procs if p.exitcode is not None),
-                "exitcodes": [p.exitcode for p in procs],
-                "seconds": round(time.time() - t0, 2),
-            }
+        else:
+            # the whole failing request, teardown included, is bounded by T from its reference time
+            markers = mon.scan()
+            ts = mon.settled(markers) or t_call
+            th.join(max(1.0, mon.t_ref(t_call, ts) + T - time.time()))
+        st = {"after": last, "exc": sbox.get("exc")}
+        st["outcome"] = "blocked" if th.is_alive() else ("raised" if "exc" in sbox else "returned")
+        # play_many killed every worker before re-raising: they must all be gone shortly
+        t1 = time.time()
+        while last == "raised" and time.time() - t1 < 5 and any(p.exitcode is None for p in procs):
+            time.sleep(0.05)
+        st["exited"] = sum(1 for p in procs if p.exitcode is not None)
+        st["exitcodes"] = [p.exitcode for p in procs]
+        st["seconds"] = round(time.time() - t0, 2)
+        res["stop"] = st
+
+
+def run_play_many_games(scenario, d, factory, res):
+    from tak import self_play
+    import takverif_factories as tf
+
+    W = scenario["W"]
+    T = float(scenario.get("T", 10.0))
+    (n,) = scenario["requests"]
+    cfg = self_play.SelfPlayConfig(engine_factory=factory, size=3, workers=W)
+    box = {}
+
+    def call():
+        try:
+            box["logs"] = self_play.play_many_games(cfg, n)
+        except BaseException as ex:  # noqa
+            box["exc"] = type(ex).__name__
+        box["t_end"] = time.time()
+
+    t_call = time.time()
+    mon = Monitor(d, W, t_call, None)
+    th = threading.Thread(target=call, daemon=True)
+    th.start()
+    obs = {"N": n, "request": 1}
+    blocked = mon.watch(th, t_call, T)
+    markers = mon.scan()
+    ts = mon.settled(markers) or t_call
+    obs["fault"] = mon.last_fault()
+    obs["faults_fired"] = sorted(k for _, k in mon.faults)
+    obs["exitcodes"] = []
+    if blocked is not None:
+        obs["outcome"] = "blocked"
+        obs["blocked_s"] = blocked
+    elif "logs" in box:
+        obs["outcome"] = "returned"
+        obs["n"] = len(box["logs"])
+        _tags(box["logs"], tf, set(), None, obs)
+    else:
+        obs["outcome"] = "raised"
+        obs["exc"] = box["exc"]
+        obs["ms"] = max(0, int((box["t_end"] - mon.t_ref(t_call, ts)) * 1000))
+    obs["seconds"] = round(time.time() - t_call, 2)
+    res["requests"].append(obs)
+    if blocked is None:
+        # the call is over (stop() included): every worker process must be gone shortly
+        t0 = time.time()
+        alive = _worker_children()
+        while alive and time.time() - t0 < 5:
+            time.sleep(0.05)
+            alive = [p for p in alive if p.is_alive()]
+        res["stop"] = {
+            "after": obs["outcome"],
+            "outcome": "returned",  # the call came back; its own stop() is part of `outcome` above
+            "exc": None,
+            "exited": W - len(alive),
+            "exitcodes": [],
+            "seconds": round(time.time() - t0, 2),
+        }
+
+
+def run(scenario):
+    import takverif_factories as tf
+
+    d = tempfile.mkdtemp(prefix="c18-")
+    nonce = "%x" % (int(time.time() * 1e6) & 0xFFFFFFFF)
+    factory = tf.ScriptedFactory(spec_of(scenario, nonce), d)
+    res = {"requests": [], "W": scenario["W"], "stop": None, "error": None, "api": scenario.get("api", "play_many")}
+    try:
+        if res["api"] == "play_many_games":
+            run_play_many_games(scenario, d, factory, res)
+        else:
+            run_play_many(scenario, d, factory, res)
     except BaseException as ex:  # noqa
         import traceback
 
         res["error"] = "%s: %s\n%s" % (type(ex).__name__, ex, traceback.format_exc()[-1500:])
     finally:
+        procs = list(res.pop("_procs", [])) + _worker_children()
         for p in procs:
             try:
                 if p.exitcode is None:
